@@ -2,13 +2,21 @@
    whole model of a build (Model/Run.v run_build: setup, user code as any
    strategy tree, commit or rollback, injected faults included) and about clean.
    Proofs in Proofs/FrameLaws.v and Proofs/CleanLaws.v.
-   Directory half: label partial (see below). *)
+   Directory half (Proofs/SimL1-2.v over CommitDirs*, RollbackDirs*, SimI2, CleanLaws; fault-free):
+   C03_foreign_directories_survive - after a raised or refused build every directory of the pre-state is still there,
+   after a committed build every directory the previous cache does not record as created; C03_no_foreign_directory_appears
+   - a directory that was not there before is one the new cache records (commit) / one the previous cache recorded or an
+   ancestor it needs (rollback) / does not exist (refusal); C03_clean_foreign_directories - clean removes a directory only
+   if the cache records it as created and nothing is left in it.  The side conditions per outcome are the definitions
+   side_survive / side_appear of SimL1.v (condition A etc.).  Label partial: under faults only the file half is proved;
+   "a recorded directory goes only when empty" for committed builds is proved relative to fs_wf of the final tree
+   (SimL2.v). *)
 From Coq Require Import List String Bool.
 From FB.Base Require Import PyVal Fs.
 From FB.Gen Require Import JsonUtilGen.
 From FB.Spec Require Import Prog Ref.
 From FB.Model Require Import Types Monad Builder Persist Build Run Frame.
-From FB.Proofs Require Import FrameLaws CleanLaws.
+From FB.Proofs Require Import FrameLaws CleanLaws SimL1.
 (* T1g: Model/BuildDirs.v and Model/CreatedFiles.v are equal to the translation of build_dirs.py / created_files.py
    (Gen/BookGen.v, regenerated on every run); a change of those sources that the model does not follow breaks this import *)
 From FB.Proofs Require BookGenLaws.
@@ -49,6 +57,42 @@ Theorem C03_clean_dirs : forall fs cf pv p, lookup fs p = Some NDir ->
   lookup (ref_clean fs cf pv) p = Some NDir \/
   (lookup (ref_clean fs cf pv) p = None /\ In p (pv_dirs pv) /\ forall n, lookup (ref_clean fs cf pv) (n :: p) = None).
 Proof. exact ref_clean_dirs. Qed.
+
+(* the directory half, mechanism model, every outcome of a build *)
+Theorem C03_foreign_directories_survive : forall cf nm vers svers root w w' r (P : path -> Prop),
+  w_faults w = [] -> sanitize vers = Some svers -> AllTargets P root ->
+  run_build cf nm vers root w = (w', r) ->
+  side_survive P cf (old_cache_of (w_fs w) cf nm svers) (w_fs w) r ->
+  forall d, lookup (w_fs w) d = Some NDir ->
+    match r with
+    | Done (inl _) => ~ In d (c_dirs (old_cache_of (w_fs w) cf nm svers))   (* committed: not recorded as created *)
+    | _ => True                                                            (* raised, refused: every directory *)
+    end ->
+    lookup (w_fs w') d = Some NDir.
+Proof. exact foreign_directories_survive. Qed.
+
+Theorem C03_no_foreign_directory_appears : forall cf nm vers svers root w w' r (P : path -> Prop),
+  w_faults w = [] -> sanitize vers = Some svers -> AllTargets P root ->
+  run_build cf nm vers root w = (w', r) ->
+  side_appear P cf (old_cache_of (w_fs w) cf nm svers) (w_fs w) r ->
+  forall d, lookup (w_fs w') d = Some NDir -> lookup (w_fs w) d <> Some NDir ->
+    match r with
+    | Done (inl _) => In d (c_dirs (w_new w'))
+    | Done (inr _) =>
+        In d (c_dirs (old_cache_of (w_fs w) cf nm svers)) \/
+        exists r0, In r0 (c_dirs (old_cache_of (w_fs w) cf nm svers)) /\ below d r0 = true /\
+                   lookup (w_fs w') r0 = Some NDir
+    | Refused _ => False
+    end.
+Proof. exact no_foreign_directory_appears. Qed.
+
+Theorem C03_clean_foreign_directories : forall cf nm w w' r, w_faults w = [] -> m_clean cf nm w = (w', r) ->
+  forall d, lookup (w_fs w) d = Some NDir ->
+    lookup (w_fs w') d = Some NDir \/
+    (lookup (w_fs w') d = None /\
+     (exists f c, lookup (w_fs w) cf = Some (NFile f) /\ cache_of_json (f_json f) = ReadOk c /\ In d (c_dirs c)) /\
+     forall n, lookup (w_fs w') (n :: d) = None).
+Proof. exact clean_foreign_directories. Qed.
 
 (* non-vacuity: the set of targets of a concrete program *)
 Example C03_nonvacuous :
